@@ -255,4 +255,184 @@ theorem closeNodeStart_open (S : Schema) (hdet : DetS S) (hleaf : PM.FromDom.Lea
       RL_fappend_left S b fill' _ hv1 hfragRL⟩
     exact MarksOK_fappend S t _ _ (MarksOK_of_nil S _ _ (fun n hn => (hn1 n hn).2)) hmk'
 
+/-! ### what the take loop adds -/
+
+/-- the image of a node that stays open `b + 1` levels at its end -/
+def OpenImg (S : Schema) (b : Nat) (r : Node) : Prop :=
+  ∃ t a m kk, r = .elem t a m kk ∧ canonicalMarks S m = true ∧ t < S.nodes.size ∧ MarksOK S t kk ∧ RL S b kk
+
+/-- what has been added after `taken` nodes: marks allowed by the frontier node's type; all valid, except that the
+    last one is an open image when the whole fragment was taken and an open end will be pushed -/
+def TakeGood (S : Schema) (fty : TypeId) (total : Nat) (oec : Int) (b : Nat) (taken : Nat) (add : List Node) : Prop :=
+  MarksOK S fty add ∧
+  ((taken = total ∧ 0 < oec) → ∃ pre r, add = pre ++ [r] ∧ S.checkKids pre = true ∧ OpenImg S b r) ∧
+  (¬ (taken = total ∧ 0 < oec) → S.checkKids add = true)
+
+theorem takeLoop_tail_good (S : Schema) (d : Dfa) (fty : TypeId) (os : Nat) (oec : Int) (total b : Nat) :
+    ∀ (rest : List Node) (taken q : Nat) (add : List Node) (tk : Nat × Nat × List Node),
+    takeLoop S d fty os oec total rest taken q add = .ok tk → 1 ≤ taken → total = taken + rest.length →
+    (∀ j node, rest[j]? = some node → (j + 1 < rest.length ∨ ¬ 0 < oec) → S.checkNode node = true) →
+    (0 < oec → ∀ ln, rest.getLast? = some ln → ∃ t a m k, ln = .elem t a m k ∧ canonicalMarks S m = true ∧
+      t < S.nodes.size ∧ MarksOK S t k ∧ RL S b k) →
+    TakeGood S fty total oec b taken add → TakeGood S fty total oec b tk.1 tk.2.2
+  | [], taken, q, add, tk, h, _, _, _, _, hq => by
+    have := pure_ok h
+    subst this
+    exact hq
+  | next :: rest', taken, q, add, tk, h, h1, htot, hv, hl, hq => by
+    unfold takeLoop at h
+    split at h
+    · have := pure_ok h
+      subst this
+      exact hq
+    · rename_i q' hm
+      simp only at h
+      have hne1 : (taken + 1 == 1) = false := by
+        simp only [beq_eq_false_iff_ne, ne_eq]; omega
+      simp only [List.length_cons] at htot
+      have hadd : S.checkKids add = true := hq.2.2 (by intro hh; omega)
+      split at h
+      · obtain ⟨n, hn, h⟩ := FM.bind_ok h
+        simp only [hne1, Bool.false_eq_true, if_false] at hn
+        have hn' : n = next.withMarks ((S.nodeType fty).allowedMarks next.marks) := (pure_ok hn).symm
+        subst hn'
+        refine takeLoop_tail_good S d fty os oec total b rest' _ q' _ tk h (by omega) (by omega) ?_ ?_ ?_
+        · intro j node hj hjl
+          exact hv (j + 1) node (by simpa using hj) (by
+            rcases hjl with h0 | h0
+            · exact .inl (by simp only [List.length_cons]; omega)
+            · exact .inr h0)
+        · intro hpos ln hln
+          cases rest' with
+          | nil => simp at hln
+          | cons y ys => exact hl hpos ln (by rw [List.getLast?_cons_cons]; exact hln)
+        · refine ⟨?_, ?_, ?_⟩
+          · intro c hc
+            rcases List.mem_append.mp hc with hc | hc
+            · exact hq.1 c hc
+            · simp only [List.mem_singleton] at hc
+              subst hc
+              rw [withMarks_marks]
+              exact allowsMarks_allowedMarks _ _
+          · intro ⟨he, hpos⟩
+            have hr0 : rest' = [] := by
+              cases rest' with
+              | nil => rfl
+              | cons y ys => simp only [List.length_cons] at htot; omega
+            subst hr0
+            obtain ⟨t, a, m, k, e, h2, h3, h4, h5⟩ := hl hpos next rfl
+            subst e
+            exact ⟨add, _, rfl, hadd, t, a, _, k, rfl, canonicalMarks_allowedMarks S _ m h2, h3, h4, h5⟩
+          · intro hno
+            rw [checkKids_append]
+            have hnv : S.checkNode next = true := hv 0 next rfl (by
+              by_cases hpos : 0 < oec
+              · left
+                simp only [List.length_cons]
+                have : taken + 1 ≠ total := fun he => hno ⟨he, hpos⟩
+                omega
+              · exact .inr hpos)
+            simp [hadd, checkNode_withMarks_allowed S (S.nodeType fty) next hnv]
+      · rename_i hc
+        exfalso
+        apply hc
+        simp only [Bool.or_eq_true, decide_eq_true_eq]
+        exact .inl (.inl (by omega))
+
+/-- **the take loop**: what it has added is good, given what is known of the first node's `close_node_start` image -/
+theorem takeLoop_good (S : Schema) (d : Dfa) (fty : TypeId) (os : Nat) (oec : Int) (total b : Nat)
+    (next : Node) (rest' : List Node) (q : Nat) (add : List Node) (tk : Nat × Nat × List Node)
+    (h : takeLoop S d fty os oec total (next :: rest') 0 q add = .ok tk) (htot : total = 1 + rest'.length)
+    (hadd : S.checkKids add = true) (haddm : MarksOK S fty add)
+    (hfc : ¬ (total = 1 ∧ 0 < oec) → ∀ n1, closeNodeStart S os
+      (next.withMarks ((S.nodeType fty).allowedMarks next.marks)) (if (0 + 1 == total) = true then oec else -1) = .ok n1 →
+      S.checkNode n1 = true)
+    (hfo : total = 1 → 0 < oec → ∀ n1, closeNodeStart S os
+      (next.withMarks ((S.nodeType fty).allowedMarks next.marks)) oec = .ok n1 → OpenImg S b n1)
+    (hskip : ¬ (total = 1 ∧ 0 < oec ∧ os ≠ 0 ∧ fsize next.kids = 0))
+    (hv : ∀ j node, rest'[j]? = some node → (j + 1 < rest'.length ∨ ¬ 0 < oec) → S.checkNode node = true)
+    (hl : 0 < oec → ∀ ln, rest'.getLast? = some ln → ∃ t a m k, ln = .elem t a m k ∧ canonicalMarks S m = true ∧
+      t < S.nodes.size ∧ MarksOK S t k ∧ RL S b k) :
+    TakeGood S fty total oec b tk.1 tk.2.2 := by
+  have hq0 : TakeGood S fty total oec b 0 add := ⟨haddm, fun ⟨he, _⟩ => by omega, fun _ => hadd⟩
+  unfold takeLoop at h
+  split at h
+  · have := pure_ok h
+    subst this
+    exact hq0
+  · rename_i q' hm
+    simp only at h
+    split at h
+    · obtain ⟨n1, hn1, h⟩ := FM.bind_ok h
+      simp only [beq_self_eq_true, if_true] at hn1
+      refine takeLoop_tail_good S d fty os oec total b rest' 1 q' _ tk h (Nat.le_refl _) (by omega) hv hl ?_
+      have hm1 : n1.marks = (S.nodeType fty).allowedMarks next.marks := by
+        rw [closeNodeStart_marks S _ _ _ n1 hn1, withMarks_marks]
+      refine ⟨?_, ?_, ?_⟩
+      · intro c hc
+        rcases List.mem_append.mp hc with hc | hc
+        · exact haddm c hc
+        · simp only [List.mem_singleton] at hc
+          subst hc
+          rw [hm1]
+          exact allowsMarks_allowedMarks _ _
+      · intro ⟨he, hpos⟩
+        have hn1' := hn1
+        rw [← he] at hn1'
+        simp only [beq_self_eq_true, if_true] at hn1'
+        exact ⟨add, n1, rfl, hadd, hfo he.symm hpos n1 hn1'⟩
+      · intro hno
+        rw [checkKids_append]
+        have := hfc (fun ⟨he, hpos⟩ => hno ⟨he.symm, hpos⟩) n1 hn1
+        simp [hadd, this]
+    · rename_i hc
+      have hc' : os ≠ 0 ∧ fsize next.kids = 0 := by
+        simp only [Bool.or_eq_true, decide_eq_true_eq, beq_iff_eq, bne_iff_ne, ne_eq, not_or, Decidable.not_not] at hc
+        exact ⟨hc.1.2, hc.2⟩
+      refine takeLoop_tail_good S d fty os oec total b rest' 1 q _ tk h (Nat.le_refl _) (by omega) hv hl ?_
+      exact ⟨haddm, fun ⟨he, hpos⟩ => absurd ⟨he.symm, hpos, hc'.1, hc'.2⟩ hskip, fun _ => hadd⟩
+
+/-! ### the levels pushed for the open end -/
+
+theorem ValR_of_coh_RL (S : Schema) (D g : Nat) (base : List FItem) : ∀ (pushed : List FItem) (j n : Nat)
+    (kk : List Node), pushed.length = n + 1 → g < j → Coh S D g base j pushed kk → RL S n kk →
+    (∀ it, pushed.head? = some it → it.ty < S.nodes.size ∧ MarksOK S it.ty kk) →
+    ValR S (LevelR S) true 0 pushed kk
+  | [], _, _, _, hl, _, _, _, _ => by simp at hl
+  | [it], j, n, kk, hl, hg, hc, hrl, hh => by
+    have hn : n = 0 := by simpa using hl.symm
+    subst hn
+    obtain ⟨⟨⟨s, q, h1, h2, h3⟩, _⟩, _⟩ := hc
+    unfold cohStart at h1
+    rw [if_neg (by omega)] at h1
+    simp only [Option.some.injEq] at h1
+    subst h1
+    unfold cohKids at h3
+    rw [if_neg (by omega)] at h3
+    obtain ⟨ht, hm⟩ := hh it rfl
+    exact ⟨by simpa [leftOpenValid, RL] using hrl, fun _ => ⟨ht, hm, q, h2, h3⟩⟩
+  | it :: nxt :: rest, j, n, kk, hl, hg, hc, hrl, hh => by
+    obtain ⟨n', rfl⟩ : ∃ n', n = n' + 1 := ⟨n - 1, by simp only [List.length_cons] at hl; omega⟩
+    obtain ⟨⟨⟨s, q, h1, h2, h3⟩, _⟩, t', a', m', k', hlast, ht', hc'⟩ := hc
+    unfold cohStart at h1
+    rw [if_neg (by omega)] at h1
+    simp only [Option.some.injEq] at h1
+    subst h1
+    unfold cohKids at h3
+    rw [if_neg (by omega)] at h3
+    obtain ⟨init, t, a, m, k, e, r1, r2, r3, r4, r5⟩ := hrl
+    subst e
+    simp only [List.getLast?_concat, Option.some.injEq, Node.elem.injEq] at hlast
+    obtain ⟨e1, e2, e3, e4⟩ := hlast
+    subst e1; subst e2; subst e3; subst e4
+    obtain ⟨hty, hm⟩ := hh it rfl
+    refine ⟨init, t, a, m, k, rfl, ht', by simpa [leftOpenValid] using r1, fun _ => ⟨hty, hm, q, h2, h3⟩, r2, ?_⟩
+    refine ValR_of_coh_RL S D g base (nxt :: rest) (j + 1) n' k (by simp only [List.length_cons] at hl ⊢; omega)
+      (by omega) hc' r5 ?_
+    intro it' hit'
+    simp only [List.head?_cons, Option.some.injEq] at hit'
+    subst hit'
+    rw [← ht']
+    exact ⟨r3, r4⟩
+
 end PM
